@@ -23,7 +23,7 @@ import itertools
 import numpy as np
 
 PROP = 'C04'
-TARGETS = ['T3', 'T5', 'T6', 'T7b', 'T7e', 'T4o', 'T5w', 'T5g', 'T4c', 'T4t', 'T4fi', 'T4fs', 'T4fv']
+TARGETS = ['T3', 'T5', 'T6', 'T7b', 'T7e', 'T4o', 'T5w', 'T5g', 'T4c', 'T4t', 'T4fi', 'T4fs', 'T4fv', 'T4fw']
 LEAN_MODULES = ['HdVerif.Props.C04']
 MODEL_MODULES = ['HdVerif.Model.TilingJson']
 NAMESPACE = 'HdVerif.C04'
